@@ -28,6 +28,12 @@ ENGINE = "C03"
 OMIT = object()
 
 
+def pyparam(name, snake):
+    """Python parameter of a variable: process_name, then `self` / `kwargs` get "_" (/repo a558946)."""
+    p = scen.param_name(name, snake)
+    return p + "_" if p in ("self", "kwargs") else p
+
+
 def scalar_config(rng, want_ser=None):
     """Random configuration of the two custom scalars of the arg_probe stream."""
     cfg = {}
@@ -212,7 +218,7 @@ def run(ctx):
                 slots.append(("gen", g, op, None))
                 cmds.append([Sym("gen"), snake, ssx, vsx])
                 for c in cases:
-                    kw = [[scen.param_name(n, snake), v.sx] for n, v in c.vals.items() if v is not OMIT]
+                    kw = [[pyparam(n, snake), v.sx] for n, v in c.vals.items() if v is not OMIT]
                     slots.append(("call", g, op, c))
                     cmds.append([Sym("call"), snake, ssx, vsx, kw])
                 # K2: valid + malformed provided values
@@ -268,10 +274,16 @@ def run(ctx):
             rows["load"] = ld
             try:
                 if ld.get("ok"):
-                    for op, _vsx, _vds, cases in plan:
+                    for op, _vsx, vds, cases in plan:
                         m = scen.method_name(op.name.value)
+                        # the parameter of each variable, read off the LOADED signature (required first, relative
+                        # order kept - C03_required_first_is_permutation); falls back to the mangled name
+                        order = [n for n, t, _d in vds if isinstance(t, GraphQLNonNull)] + \
+                                [n for n, t, _d in vds if not isinstance(t, GraphQLNonNull)]
+                        real = [p[0] for p in (ld.get("methods", {}).get(m, {}).get("params") or []) if p[3] != "VAR_KEYWORD"]
+                        pmap = dict(zip(order, real)) if len(real) == len(order) else {}
                         for c in cases:
-                            enc = {scen.param_name(n, g.snake): v.enc for n, v in c.vals.items() if v is not OMIT}
+                            enc = {pmap.get(n, pyparam(n, g.snake)): v.enc for n, v in c.vals.items() if v is not OMIT}
                             intended = {n: v.intent for n, v in c.vals.items() if v is not OMIT}
                             c.real = g.driver.ask({"cmd": "call_args", "method": m, "args": enc, "intended": intended})
             finally:
@@ -324,17 +336,17 @@ def check_scenario(ctx, g, plan, rows, genres, stats):
             run.violation(f"model refuses variables of {op.name.value} which the generator accepted",
                           replay_of(g, op), found_input=False)
             continue
-        _ok, gen, sig_ok, names_ok, inputs_ok, f21_ok, f10 = gr
+        _ok, gen, sig_ok, names_ok, inputs_ok, f21_ok = gr
         params, dct, locs = gen
         sig_ok, names_ok, inputs_ok = sig_ok == "t", names_ok == "t", inputs_ok == "t"
         f21_shape = f21_ok == "f"      # informational: F21 is fixed for input fields (/repo 1ef155d); no routing
         f21_ok = True
-        f10_bad = {n for (n, _t, _d), b in zip(vds, f10) if b == "f"}
+        f10_bad = set()      # F10 is fixed (/repo d163d56): no routing; a failure of that kind is a VIOLATION
         any_sig_bad |= not sig_ok
         run.dist("operations", "variables:%d" % min(len(vds), 6))
         for _n, t, has_default in vds:
             run.dist("variable_types", type_shape(t) + ("=default" if has_default else ""))
-        run.dist("guards", f"names_ok={names_ok} inputs_ok={inputs_ok} f21_shape_present={f21_shape} f10_clean={not f10_bad}")
+        run.dist("guards", f"names_ok={names_ok} inputs_ok={inputs_ok}")
         # ---- K1: signature, dict, locals
         stats["k1_methods"] += 1
         run.count()
@@ -384,8 +396,8 @@ def check_scenario(ctx, g, plan, rows, genres, stats):
     else:
         run.dist("load", "ok")
         if any_sig_bad:
-            run.violation("model predicts a SyntaxError in client.py but the package imports",
-                          {"schema": g.sc.sdl, "queries": g.sc.queries, "config": g.res.get("config")}, found_input=False)
+            argenc.k1v(run, "K1 model predicts a SyntaxError in client.py but the package imports",
+                       {"schema": g.sc.sdl, "queries": g.sc.queries, "config": g.res.get("config")}, found_input=False)
 
 
 def classify(names_ok, inputs_ok, f10_bad, involved, f21=False):
